@@ -125,6 +125,19 @@ theorem gray_spec (imgs : NdArr K) (X Y Z C : Nat) (hs : imgs.shape = [X, Y, Z, 
   · intro hC
     simp [sliceThenInts, hs, hC]
 
+/-! ## `GrayImageStack.__getitem__`, `__init__` -/
+
+/-- **`GrayImageStack.__getitem__` as translated NEVER returns**: its first statement `v = self[key]` is a call of the method itself, so for every
+key and every recursion depth allowed there is no result (Python: RecursionError for every key).  Reported in design_notes/session4/imgio.md /
+imgio2.md; `self.imgs[key]` was presumably meant. -/
+theorem gray_getitem_never_returns : ∀ (fuel : Nat) (key : Int × Int × Int), gray_getitem (K := K) fuel key = none
+  | 0, _ => rfl
+  | fuel + 1, key => by
+    unfold gray_getitem
+    simp only [Py.seq, Py.bind, gray_getitem_never_returns fuel, Py.finish, Option.map_none]
+
+theorem gray_init_eq (imgs : NdArr K) : gray_init imgs = some imgs := rfl
+
 end generic
 
 /-! ## `transform` with the frame conversion `(255 * voxel[..., 0, 0]).astype(np.uint8)` translated -/
